@@ -272,6 +272,10 @@ def parse_int(source, base=10, default=None, param="value", handler=None):
     if source.startswith(_UZERO) and source != _UZERO:
         raise exc.MalformedHashError(handler, f"zero-padded {param} field")
     if source:
+        # NOTE: int() would also accept a sign, surrounding blanks, "_" separators
+        #       and non-ascii digits, none of which is a canonical rendering.
+        if base == 10 and not (source.isascii() and source.isdigit()):
+            raise exc.MalformedHashError(handler, f"malformed {param} field")
         return int(source, base)
     if default is None:
         raise exc.MalformedHashError(handler, f"empty {param} field")
